@@ -81,6 +81,7 @@ type Store struct {
 	DelFault    func(proc string, nth int, e Event) string     // "", "err", "cas", "die"
 	IterFault   func(proc string, iter int, nth int) error     // nil => none: error returned by the nth Next of an iterator
 	GetFault    func(proc string) error                        // nil => none: error returned by a point lookup
+	BeforeRun   func()                                         // called right before a batch reaches the engine
 	commitN     int
 	delN        int
 	// LogIter makes iterator items part of the trace.
@@ -512,6 +513,9 @@ func (b *batchW) Commit(ctx context.Context) error {
 		return bw.Commit(ctx)
 	}
 	if fault == nil {
+		if br := s.BeforeRun; br != nil {
+			br() // (after the recorder's own read of the previous values: a fault armed inside the engine meets the batch, not that read)
+		}
 		err = run()
 		applied = err == nil
 		ev["fault"] = ""
